@@ -118,6 +118,7 @@ type interpreter struct {
 	softFuelAt      int64
 	mapOrderSym     bool
 	softOpaque      bool
+	collectObserved bool
 	mapOrderUsed    int
 	fuelIsViolation bool
 }
